@@ -209,6 +209,18 @@ func (ex *Exec) loopEnter(st *State, frID int, lp *Loop, from *ssa.BasicBlock, k
 			}
 		}
 	}
+	if spec != nil {
+		for _, c := range spec.Assumed {
+			env := ex.loopEnv(st, fr, lp)
+			g, err := env.evalBool(c.E)
+			if err != nil {
+				ex.bindingError(c, err)
+				continue
+			}
+			st.Assume(g)
+			ex.assumed[fmt.Sprintf("assumed (unproved) loop invariant in %s loop %d [%s]: %s", funcKey(ex.fn), lp.Ordinal, c.Label, c.Src)] = true
+		}
+	}
 	// 3. assume the invariants
 	if spec != nil {
 		for _, c := range spec.Invs {
@@ -224,6 +236,12 @@ func (ex *Exec) loopEnter(st *State, frID int, lp *Loop, from *ssa.BasicBlock, k
 	if spec != nil {
 		ex.canary(st, ex.loopName(fr, lp))
 	}
+	if ex.disc == nil && fr.Fn == ex.fn {
+		if ex.iterStart == nil {
+			ex.iterStart = map[*ssa.BasicBlock]*State{}
+		}
+		ex.iterStart[lp.Header] = st.Clone()
+	}
 	ex.run(st, frID, lp.Header, 0, from, k)
 }
 
@@ -232,6 +250,7 @@ func (ex *Exec) loopBackEdge(st *State, frID int, lp *Loop) {
 		return
 	}
 	fr := st.Frames[frID]
+	ex.checkBranches(st, fr, lp)
 	spec := ex.loopSpec(fr, lp)
 	if spec == nil {
 		return
@@ -376,4 +395,40 @@ func (ex *Exec) loopEnv(st *State, fr *Frame, lp *Loop) *Env {
 	env.frame = fr
 	env.loop = lp
 	return env
+}
+
+// checkBranches: "branch <text>: ensures E" clauses of an event loop. E is checked at the end of
+// every iteration that took a select case (or statement) whose source line contains <text>;
+// old(...) inside E refers to the state at the start of that iteration.
+func (ex *Exec) checkBranches(st *State, fr *Frame, lp *Loop) {
+	if ex.contract == nil || fr.Fn != ex.fn || len(ex.contract.Branches) == 0 {
+		return
+	}
+	start := ex.iterStart[lp.Header]
+	if start == nil {
+		return
+	}
+	taken := st.Trace[len(start.Trace):]
+	for label, clauses := range ex.contract.Branches {
+		hit := false
+		for _, t := range taken {
+			if strings.HasPrefix(t, "case:") && strings.Contains(t, label) {
+				hit = true
+			}
+		}
+		if !hit {
+			continue
+		}
+		for _, c := range clauses {
+			env := ex.loopEnv(st, fr, lp)
+			env.old = start
+			env.oldMid = true
+			g, err := env.evalBool(c.E)
+			if err != nil {
+				ex.bindingError(c, err)
+				continue
+			}
+			ex.obligeClause(st, "branch", label+":"+c.Label, c, g)
+		}
+	}
 }
